@@ -2,6 +2,7 @@ package main
 
 import (
 	"bufio"
+	_ "embed"
 	"encoding/json"
 	"fmt"
 	"os"
@@ -65,6 +66,9 @@ func newReport(prop, tier string) *Report {
 // instances confirmed by hand on the reference tree. Fewer instances than the
 // floor fail the check (a rule that matches nothing would pass vacuously).
 func (r *Report) Rule(rule, text string, floor int) {
+	if fl, ok := floorTable[r.Prop][rule]; ok {
+		floor = fl
+	}
 	if _, ok := r.rules[rule]; !ok {
 		r.rules[rule] = &ruleStat{Rule: rule, Text: text, Floor: floor}
 		r.order = append(r.order, rule)
@@ -111,6 +115,18 @@ func (r *Report) Check(ok bool, rule, at, pos, okDetail, failDetail string) {
 		r.Fail(rule, at, pos, failDetail)
 	}
 }
+
+//go:embed floors.json
+var floorsJSON []byte
+
+// floorTable[property][rule]: minimum number of instances, derived from the
+// instance lists confirmed on the reference tree (tools/gen_floors.py writes
+// 85% of the confirmed count so that small refactors do not trip it).
+var floorTable = func() map[string]map[string]int {
+	m := map[string]map[string]int{}
+	_ = json.Unmarshal(floorsJSON, &m)
+	return m
+}()
 
 type knownFinding struct {
 	Prop, Rule, At, Text string
